@@ -279,6 +279,29 @@ def gen_domain(rng, max_depth=2, dim=None, dep=None, k=None, allow=("bool", "pri
             "info": {"kind": kind, "dim": dim, "dep": bool(free), "relations": log, "desc": node.desc()}}
 
 
+def flip_parallelogram(rng, kinds=("parallelogram",)):
+    """parallelogram / triangle whose corner order (orientation) flips with the parameter: corner_2 = o + (0.3 l, h (1 - 2 t));
+    rows t ~ 0, 1, 1.5, -0.5 give heights ~ h, -h, -2h, 2h (well conditioned for every row)"""
+    scale = float(rng.uniform(0.4, 1.5))
+    o = rng.uniform(-2, 2, 2) * scale
+    l1 = scale * rng.uniform(0.9, 1.8)
+    h = scale * rng.uniform(0.8, 1.4)
+    ang = float(rng.choice([0.0, rng.uniform(0, 2 * math.pi)]))
+    R = _rot(ang)
+    c1 = o + R @ np.array([l1, 0.0])
+    base2 = o + R @ np.array([0.3 * l1, h])
+    coef = R @ np.array([0.0, -2 * h])
+    kind = str(rng.choice(kinds))
+    spec = {"prim": kind, "var": "x", "origin": [float(o[0]), float(o[1])], "c1": [float(c1[0]), float(c1[1])],
+            "c2": {"a": [float(base2[0]), float(base2[1])], "terms": [{"var": "t", "col": 0, "kind": "lin",
+                                                                      "coef": [float(coef[0]), float(coef[1])]}]}}
+    k = int(rng.choice([2, 3, 4]))
+    tvals = rng.permutation(np.array([0.0, 1.0, 1.5, -0.5]))[:k] + rng.uniform(0, 0.05, k)
+    rows = {"t": [[float(np.float32(v))] for v in tvals]}
+    return {"spec": spec, "rows": rows, "k": k,
+            "info": {"kind": "prim", "dim": 2, "dep": True, "relations": ["flip"], "desc": geo.ref(spec).desc() + "~flip"}}
+
+
 def _make_depend_on(a, var, rng, scale):
     """make a primitive depend on the coordinates of the other product factor"""
     a = dict(a)
